@@ -15,6 +15,7 @@ from ..oracle import refhash, xmlread
 
 SPELLING = False  # this monitor controls the spelling of path arguments itself
 VERBOSITY = False  # stdout of verify -dh -co is parsed / runs must be identical
+TECHNIQUE = 'runtime monitoring: kill-point enumeration (os._exit before each recorded file-system event / half-applied writes in a forked child; real SIGKILL via strace inject on a sample) with state oracle and follow-up commands'
 LEVEL = "fault_enumeration"
 RULE = (
     "scenario = history with 0/1/2/5 prior generations, flat or with 1-2 nested histories, then an interrupted create (folder "
